@@ -439,10 +439,10 @@ func (r *DeviceLocal) Information() *model.NodeManagementDetailedDiscoveryDevice
 	res := model.NodeManagementDetailedDiscoveryDeviceInformationType{
 		Description: &model.NetworkManagementDeviceDescriptionDataType{
 			DeviceAddress: &model.DeviceAddressType{
-				Device: r.address,
+				Device: r.Address(),
 			},
-			DeviceType:        r.dType,
-			NetworkFeatureSet: r.featureSet,
+			DeviceType:        r.DeviceType(),
+			NetworkFeatureSet: r.FeatureSet(),
 		},
 	}
 	return &res
